@@ -208,6 +208,7 @@ func checkC14(rep *vk.Report, prop string) {
 func c14Round(rep *vk.Report, prop string, idx int, kinds []string, salt int) {
 	sh := buildC14(kinds)
 	name := strings.Join(kinds, ">")
+	nestedHedges := strings.Count(name, "hedge") > 1
 	g := 16 + salt%3*16
 	per := scale(rep, 12, 30)
 	var inside, maxInside atomic.Int64
@@ -238,7 +239,14 @@ func c14Round(rep *vk.Report, prop string, idx int, kinds []string, salt int) {
 					OnDone(func(e failsafe.ExecutionDoneEvent[int]) {
 						ctr.done.Add(1)
 						touchInfo(e)
-						if e.Attempts() != 1+e.Retries()+e.Hedges() || e.Executions() > e.Attempts() {
+						// the counters are separate atomics: read the ones that are bumped second first. With a hedge nested in a
+						// hedge an abandoned branch may be starting a hedge while this event is delivered (CopyForHedge bumps
+						// attempts, then hedges, and nothing orders that with the winner's completion), so only the order-safe
+						// inequality can be demanded there; everywhere else retries are started under the execution's lock, which
+						// the hedge's cancellation of the losing branches also takes, and equality must hold
+						x, rt, h := e.Executions(), e.Retries(), e.Hedges()
+						a := e.Attempts()
+						if (nestedHedges && a < 1+rt+h) || (!nestedHedges && a != 1+rt+h) || x > a {
 							ctr.identityBad.Add(1)
 						}
 					}).
